@@ -9,7 +9,7 @@ use crate::engine::{catch, h64, par_range, run_generated, show_bytes, Ctx, Stats
 use crate::oracle::hex::{ref_encode, ref_shape};
 use crate::props::c01::{addr_strategy, byte_strategy, FrameCase};
 
-pub const RULE: &str = "for each generated valid frame (boundary-biased address/type/content, lengths biased small but including 255), with and without CRLF, the complete single-fault neighbourhood is enumerated: every position x every replacement byte 0..=255 (structural alphabet + 16 pseudo-random bytes for frames with more than 64 data bytes), every deletion, duplication, adjacent transposition of unequal characters and proper prefix; plus generated forgeries of the right shape whose length field or checksum is wrong (hex letters in random case). Oracle: decode = Err or Ok(original); forgeries must be Err; no panic. Non-trivial = a mutant that still has the documented shape (only the length/checksum logic can reject it) or that touches the terminator, and every forgery; distinct by (frame, crlf, operator, position, byte)";
+pub const RULE: &str = "for each generated valid frame (boundary-biased address/type/content, lengths biased small but including 255), with and without CRLF, the complete single-fault neighbourhood is enumerated: every position x every replacement byte 0..=255 (structural alphabet + 16 pseudo-random bytes for frames with more than 64 data bytes), every deletion, duplication, adjacent transposition of unequal characters and proper prefix; the same for generated frames whose data spells out another complete frame such that one damaged character leaves a well-formed tail (only a decoder that insists on the leading colon rejects those); plus generated forgeries of the right shape whose length field or checksum is wrong (hex letters in random case). Oracle: decode = Err or Ok(original); forgeries must be Err; no panic. Non-trivial = a mutant that still has the documented shape (only the length/checksum logic can reject it) or that touches the terminator, and every forgery; distinct by (frame, crlf, operator, position, byte)";
 pub const ASSUMPTIONS: &[&str] = &["mutants are derived from the harness's own reference encoding of the frame (oracle/hex.rs), which C01 shows to be byte-identical to Frame::to_bytes"];
 
 #[derive(Serialize, Deserialize, Debug, Clone, Copy, PartialEq, Eq, Hash)]
@@ -343,7 +343,7 @@ pub fn run(ctx: &Ctx) {
     run_generated(
         ctx,
         "neighbourhood",
-        ctx.tier.pick(2_000, 60_000),
+        ctx.tier.pick(2_000, 30_000),
         || (small_frame_strategy(), any::<u64>()).prop_map(|(frame, extra_seed)| NeighbourhoodCase { frame, extra_seed }),
         |c, st| check_neighbourhood(c, st),
     );
